@@ -6,6 +6,10 @@ claimed = {
    text="Bit-vector proofs over the full 64/32-bit input domains of every colour conversion (Valid, IsRGB, Hex, RGB, TrueColor, NewHexColor, NewRGBColor, PaletteColor) against contracts taken from the property; FindColor proved optimal and member-returning for every colour and every palette length by a cut loop with an inductive invariant (CIE76 as an uninterpreted function); every entry of the xterm-256 and W3C name tables decided by evaluating the real functions on it.",
    note="Assumed: go-colorful DistanceCIE76 is deterministic/total and is CIE76; float arithmetic abstracted to uninterpreted functions over IEEE doubles (comparisons exact); package tables hold their literal initial values; the CSS table in spec/std and the xterm formula are the oracle; CSS()/GetColor('#rrggbb')/FromImageColor string and interface paths are not under contract yet. Palette members must carry the valid flag (stated precondition).",
    technique="contract-based deductive verification: go/ssa WP-style symbolic execution + z3/cvc5, loop invariant for FindColor, exhaustive table evaluation on the real code", ref="6 (C16)"),
+ "C08": dict(cat="proof",
+   text="Whole-view contracts on every CellBuffer operation (SetContent, GetContent, Dirty, SetDirty, Invalidate, LockCell, UnlockCell, Fill, Resize, Size) proved for all sizes, coordinates, runes, styles and combining slices: the cell written holds exactly what was set (fresh copy of the combining runes, ColorNone merged), every other cell and field is unchanged, out-of-range accesses do nothing, Dirty equals the specification predicate over the last-clean snapshot, wide-rune neighbours are dirtied, Resize keeps the overlap (2-D inductive invariants) and dirties/unlocks everything. Loops cut with inductive invariants; index arithmetic y*w+x is nonlinear and unbounded.",
+   note="Assumed: go-runewidth RuneWidth is a total function with values 0..2; reflect.DeepEqual on []rune modelled as element-wise equality; machine integers treated as mathematical; Resize(w,h) requires w,h>=0; GetContent returns the internal combining slice (a caller mutating the returned slice is outside the property).",
+   technique="contract-based deductive verification: representation predicate + whole-view postconditions + frame conditions, loop invariants, z3/cvc5 with quantifier patterns", ref="6 (C08)"),
  "C20": dict(cat="proof",
    text="Every ViewPort method that moves the window (ValidateView*, Scroll*, MakeVisible, Center, SetSize, SetContentSize) is proved to leave offset>=0 and offset+size<=limit (when the content is larger) from any pre-state; SetContent is proved to forward at most one call, only inside the rectangle, at content-offset+origin, with the same rune/style/combining slice; Fill is proved (two nested cut loops) to write only inside the rectangle. Unbounded integers, all geometries.",
    note="Assumed: parent View methods terminate and do not touch the ViewPort (assumed interface contracts); machine integers treated as mathematical (no overflow obligations); BoxLayout is not yet under contract (that half of C20 is not claimed).",
